@@ -69,7 +69,17 @@ def tree_case(case, root):
     text = '\n'.join(lines) + '\n'
     with open(path, 'w') as fh:
         fh.write(text)
-    tree = AstTreeModuleProfiler._get_script_ast_tree(path)
+    # a search-path entry that points *inside* the package (PYTHONPATH=<root>/pkg, a setup script living in a sub-package, ...):
+    # `-m pkg.sub.mod` still names the module from the top-level package
+    inner = None
+    if case.get('inner_path'):
+        inner = os.path.join(root, *case['pkg'][:case['inner_path']])
+        sys.path.insert(0, inner)
+    try:
+        tree = AstTreeModuleProfiler._get_script_ast_tree(path)
+    finally:
+        if inner:
+            sys.path.remove(inner)
     got = [[n.module, n.level, [[a.name, a.asname] for a in n.names], n.lineno] for n in ast.walk(tree) if isinstance(n, ast.ImportFrom)]
     got.sort(key=lambda g: g[3])
     # what Python does from that file's position: its own resolver on every `from … import` of the original text
